@@ -20,7 +20,7 @@ ASSUMPTIONS = ['a key prefix literally named "full" or "metadata" together with 
                'clean-up performed by a transient close is not required to keep discoverable recordings fetchable (excluded by the property)',
                'fake bucket = the six boto3 calls the facade uses']
 
-PREFIXES = ['', 'a', 'ab', 'a/b']
+PREFIXES = ['', 'a', 'ab', 'a/b', 'nightly builds', u'caf\u00e9', 'r&d+x']
 ROOT = 'tape_recorder_recordings/'
 CATS = ['Op', 'OpX', '/orders', '', 'a/b', 'Op']      # a request path, the empty name and a nested name are legal categories too
 
